@@ -80,19 +80,30 @@ def run(spec):
     # ---- job: R consumer tasks c<j> with k_j inputs produced by never-run source tasks s<j>_<i> ------------------
     rounds = spec["rounds"]
     tasks, edges, order = {}, [], []
+    src: dict = {}   # (round, input index) -> (producer task, output name): producers have 1-3 outputs, so that one output of a
+    #                  task can be on the host (and announced) while a sibling output of the same task has not arrived yet
     for j, k in enumerate(rounds):
+        groups: list[list[int]] = []
         for i in range(k):
-            sid = f"s{j}x{i}"
-            tasks[sid] = {"outputs": ["0"], "static_ps": {}, "static_kw": {}, "needs_gpu": False}
+            if groups and len(groups[-1]) < 3 and rng.random() < 0.5:
+                groups[-1].append(i)
+            else:
+                groups.append([i])
+        for g, members in enumerate(groups):
+            sid = f"s{j}g{g}"
+            tasks[sid] = {"outputs": [str(o) for o in range(len(members))], "static_ps": {}, "static_kw": {}, "needs_gpu": False}
             order.append(sid)
+            for o, i in enumerate(members):
+                src[(j, i)] = (sid, str(o))
         cid = f"c{j}"
         tasks[cid] = {"outputs": ["0"], "static_ps": {}, "static_kw": {}, "needs_gpu": False}
         order.append(cid)
         for i in range(k):
+            sid, o = src[(j, i)]
             if i % 2 == 0:
-                edges.append((f"s{j}x{i}", "0", cid, None, i))
+                edges.append((sid, o, cid, None, i))
             else:
-                edges.append((f"s{j}x{i}", "0", cid, f"k{i}", None))
+                edges.append((sid, o, cid, f"k{i}", None))
     js = {"tasks": tasks, "edges": edges, "ext": [], "order": order, "shape": "workerproto"}
     job = jobgen.build_job(js)
     ref = jobgen.reference_eval(js)
@@ -106,7 +117,7 @@ def run(spec):
     rc = RunnerContext(workerId=w, job=job, callback=spec["callback"], param_source=param_source(job.edges))
     wp = ctx.Process(target=worker_main, args=(rc, evlog))
     wp.start()
-    res = {"violations": [], "stats": {"rounds": 0, "orders": 0, "starts": 0, "values_checked": 0, "commands_overtaking_notice": 0}}
+    res = {"violations": [], "stats": {"rounds": 0, "orders": 0, "starts": 0, "values_checked": 0, "commands_overtaking_notice": 0, "sibling_outputs_split_by_command": 0}}
     V = res["violations"]
     try:
         t0 = time.time()
@@ -146,6 +157,10 @@ def run(spec):
             perms_seen.add((k, perm))
             if perm.index("TS") < len(perm) - 1:
                 res["stats"]["commands_overtaking_notice"] += 1
+            before = {src[(j, int(t[1:]))][0] for t in perm[: perm.index("TS")]}
+            after = {src[(j, int(t[1:]))][0] for t in perm[perm.index("TS") + 1:]}
+            if before & after:
+                res["stats"]["sibling_outputs_split_by_command"] += 1
             extra_purge = rng.random() < 0.3
             n_before = len([e for e in read_log(evlog) if e[1] == "seq-start"])
             for token in perm:
@@ -153,8 +168,8 @@ def run(spec):
                     wsend(TaskSequence(worker=w, tasks=[cid], publish={DatasetId(cid, "0")}))
                 else:
                     i = int(token[1:])
-                    ds = DatasetId(f"s{j}x{i}", "0")
-                    put(ds, ref[(f"s{j}x{i}", "0")])
+                    ds = DatasetId(*src[(j, i)])
+                    put(ds, ref[src[(j, i)]])
                     wsend(DatasetPublished(origin=w, ds=ds, transmit_idx=None))
                     if rng.random() < 0.2:
                         wsend(DatasetPublished(origin=w, ds=ds, transmit_idx=None))  # duplicate notice
